@@ -11,7 +11,9 @@
 // adapter: sonic.AsyncAdapter over one end of a socketpair (kept readable and writable) whose io.ReadWriter is scripted: every
 // Read/Write call made by async_adapter.go consumes schedule entries (a move that cannot move anything is skipped, as in the model).
 // fifo: sonic.Open on a FIFO (file.go: asyncReadNow / onRead on real read(2) calls); the harness feeds the chunk of each m entry
-// before the call that is to see it, `b` is an empty pipe, `e` is the writer closing.
+// before the call that is to see it, `b` is an empty pipe, `e` is the writer closing. Writes on a fifo: the library holds the write
+// end of a one-page pipe (file.go: asyncWriteNow / onWrite on real write(2) calls), every call moves what fits (4096 bytes or the
+// rest), the next one would block until the harness has drained the pipe, `f` is the reader going away (EPIPE).
 package main
 
 import (
@@ -109,6 +111,27 @@ func xferGen(r *rng, maxops int, w *bufio.Writer) {
 		all := r.intn(2)
 		if kind == "adapter" && r.intn(2) == 0 {
 			fmt.Fprintf(w, "! write %d %d %d %s\n", length, i, all, xferSched(r, length, all == 1, false, true))
+		} else if kind == "fifo" && r.intn(3) == 0 {
+			// file.go's write loop on a real pipe of one page: every write(2) moves what fits (4096 bytes or the rest), the
+			// next one would block until the harness has drained the pipe; `f` = the reader goes away
+			length = r.pick(1, 100, 4096, 4097, 5000, 8192, 9000, 20000)
+			var es []string
+			chunks := (length + 4095) / 4096
+			if all == 0 {
+				chunks = 1
+			}
+			stop := chunks
+			if r.intn(3) == 0 {
+				stop = r.intn(chunks + 1)
+			}
+			for c := 0; c < stop; c++ {
+				es = append(es, "m4096")
+				if c+1 < chunks {
+					es = append(es, "b")
+				}
+			}
+			es = append(es, "f")
+			fmt.Fprintf(w, "! write %d %d %d %s\n", length, i, all, strings.Join(es, ","))
 		} else {
 			fmt.Fprintf(w, "! read %d %d %s\n", length, all, xferSched(r, length, all == 1, kind == "fifo", false))
 		}
@@ -334,8 +357,94 @@ func xferRun(script []string, w *bufio.Writer) {
 				if rw.bad != "" {
 					fmt.Fprintf(w, "#env %s\n", rw.bad)
 				}
+			} else if !isRead {
+				// fifo, write side: the library holds the write end of a one-page pipe
+				if tmp == "" {
+					tmp, _ = os.MkdirTemp("", "xfer")
+				}
+				fifoN++
+				path := filepath.Join(tmp, fmt.Sprintf("w%d", fifoN))
+				if err := syscall.Mkfifo(path, 0o600); err != nil {
+					fmt.Fprintf(w, "#env mkfifo: %v\n", err)
+					return
+				}
+				rfd, err := syscall.Open(path, os.O_RDONLY|syscall.O_NONBLOCK, 0)
+				if err != nil {
+					fmt.Fprintf(w, "#env open-peer: %v\n", err)
+					return
+				}
+				if _, _, e := syscall.Syscall(syscall.SYS_FCNTL, uintptr(rfd), 1031 /* F_SETPIPE_SZ */, 4096); e != 0 {
+					fmt.Fprintf(w, "#env setpipe-sz: %v\n", e)
+					syscall.Close(rfd)
+					return
+				}
+				f, err := sonic.Open(ioc, path, os.O_WRONLY|syscall.O_NONBLOCK, 0)
+				if err != nil {
+					fmt.Fprintf(w, "#env open: %v\n", err)
+					syscall.Close(rfd)
+					return
+				}
+				drain := func() {
+					tmpb := make([]byte, 8192)
+					for rfd >= 0 {
+						n, err := syscall.Read(rfd, tmpb)
+						if n <= 0 || err != nil {
+							return
+						}
+						wire = append(wire, tmpb[:n]...)
+					}
+				}
+				issued := false
+				issue := func() {
+					issued = true
+					if all {
+						f.AsyncWriteAll(buf, cb)
+					} else {
+						f.AsyncWrite(buf, cb)
+					}
+				}
+				pollOnce := func() {
+					deadline := time.Now().Add(5 * time.Second)
+					for !done && time.Now().Before(deadline) {
+						if n, _ := ioc.PollOne(); n > 0 {
+							return
+						}
+					}
+				}
+				for _, e := range sched {
+					if done {
+						break
+					}
+					switch {
+					case e == "b":
+					case e == "f":
+						drain()
+						_ = syscall.Close(rfd)
+						rfd = -1
+						if !issued {
+							issue()
+						} else {
+							pollOnce()
+						}
+					case strings.HasPrefix(e, "m"):
+						if !issued {
+							issue()
+						} else {
+							drain()
+							pollOnce()
+						}
+					}
+				}
+				if !issued {
+					issue()
+				}
+				drain()
+				if rfd >= 0 {
+					_ = syscall.Close(rfd)
+				}
+				_ = f.Close()
 			} else {
-				// fifo, reads only
+				// fifo, read side
 				if tmp == "" {
 					tmp, _ = os.MkdirTemp("", "xfer")
 				}
